@@ -12,6 +12,8 @@ non-blank characters are `//@`):
       //@inv REGEX      <invariant/decreases lines inserted between the head of the loop whose head line
                          matches REGEX and its `{`>    ... //@endinv
       //@at REGEX       <lines inserted before the first body line matching REGEX>  ... //@endat
+      //@blockend REGEX <lines inserted before the `}` closing the block that the first body line matching
+                         REGEX opens (that line ends with `{`): end of a loop body>  ... //@endblockend
   //@endfn
   //@expand FILE MACRO [only=A,B] [rules=..]   expand `MACRO!(..)` invocations found in FILE
 
@@ -40,6 +42,7 @@ class Unit:
         self.rw = Rewriter()
         self._src = {}
         self.extracted = []      # list of (file, what)
+        self.depth = 0           # nesting of process() calls (1 = the unit's own template)
 
     def src(self, rel):
         if rel not in self._src:
@@ -76,6 +79,13 @@ class Unit:
 
     # ------------------------------------------------------------------
     def process(self, tpl_path):
+        self.depth += 1
+        try:
+            self._process(tpl_path)
+        finally:
+            self.depth -= 1
+
+    def _process(self, tpl_path):
         with open(tpl_path) as f:
             tl = f.read().split('\n')
         # `//@splice PATH`: textual inclusion of a shared contract (the SAME text is used where the
@@ -316,7 +326,8 @@ class Unit:
         out.append('}')
         out.append('impl%s %s%s %s {' % (gen, b, gen_use, where))
         out.append('    pub fn default() -> (r: Self)')
-        out.append('        ensures ' + ', '.join('r.%s is None' % f[0] for f in parsed) + ',')
+        if parsed:
+            out.append('        ensures ' + ', '.join('r.%s is None' % f[0] for f in parsed) + ',')
         out.append('    { %s { %s } }' % (b, ', '.join('%s: None' % f[0] for f in parsed)))
         for (fname, fty, dflt, strip, custom) in parsed:
             if custom:
@@ -577,22 +588,25 @@ class Unit:
                 b = b.replace(a, c)
                 self.rw.hit('Wsub')
         # --- contract block: split into clauses / inv / at ---
-        clauses, invs, ats, afters = [], [], [], []
+        clauses, invs, ats, afters, blockends = [], [], [], [], []
         k = 0
         while k < len(block):
             lno, ln = block[k]
             st = ln.strip()
-            if st.startswith('//@inv ') or st.startswith('//@at ') or st.startswith('//@after '):
+            if st.startswith('//@inv ') or st.startswith('//@at ') or st.startswith('//@after ') or st.startswith('//@blockend '):
                 is_inv = st.startswith('//@inv ')
                 is_after = st.startswith('//@after ')
+                is_blockend = st.startswith('//@blockend ')
                 rx = st.split(' ', 1)[1].strip()
-                endtok = '//@endinv' if is_inv else ('//@endafter' if is_after else '//@endat')
+                endtok = '//@endinv' if is_inv else ('//@endafter' if is_after else ('//@endblockend' if is_blockend else '//@endat'))
                 payload = []
                 k += 1
                 while k < len(block) and block[k][1].strip() != endtok:
                     payload.append(block[k])
                     k += 1
-                if is_after:
+                if is_blockend:
+                    blockends.append((rx, payload))
+                elif is_after:
                     afters.append((rx, payload))
                 else:
                     (invs if is_inv else ats).append((rx, payload))
@@ -613,7 +627,31 @@ class Unit:
             for j in range(j1, j2):
                 mapping[j] = (i1 + (j - j1)) if tag == 'equal' else min(i1, len(old_bl) - 1)
         used_inv, used_at, used_after = set(), set(), set()
+        # //@blockend: resolve each anchor to the line holding the matching `}` (brace matching on masked text)
+        pending_end = {}
+        if blockends:
+            joined = '\n'.join(bl)
+            msk = mask(joined)
+            starts = [0]
+            for x in bl:
+                starts.append(starts[-1] + len(x) + 1)
+            for rx, payload in blockends:
+                hit = None
+                for j, ln in enumerate(bl):
+                    if re.search(rx, ln) and ln.rstrip().endswith('{'):
+                        hit = j
+                        break
+                if hit is None:
+                    raise AnchorLost('%s::%s: proof-hint anchor(s) not found: %s' % (rel, name, [rx]))
+                open_pos = starts[hit] + len(bl[hit].rstrip()) - 1
+                close_pos = match_close(msk, open_pos)
+                close_line = joined.count('\n', 0, close_pos)
+                if bl[close_line].strip() != '}':
+                    raise Unsupported('//@blockend: closing brace of the block is not on a line of its own: ' + bl[close_line])
+                pending_end.setdefault(close_line, []).extend(payload)
         for j, ln in enumerate(bl):
+            for lno, pl in pending_end.get(j, []):
+                self.emit(pl, ('tpl', rel_tpl, lno))
             for ai, (rx, payload) in enumerate(ats):
                 if ai not in used_at and re.search(rx, ln):
                     used_at.add(ai)
